@@ -758,7 +758,14 @@ def check_pairs(prop, tier):
         R.cov['rule'] = 'pairs (canonical file, another presentation of the same ballots: permuted/split/merged lines, comments, layout, nicknames) x all rules; TLC evaluates SameHistory (Pairs.tla) plus the byte-equality observations'
     elif prop == 'C11':
         model_meta_stage(R, prop, tier)
-        pair_stage(R, prop, pairs.gen_c11(rng, 2 * n, drive.RULES), known)
+        items = pairs.gen_c11(rng, 2 * n, drive.RULES)
+        for e in vlib.load_known():          # the witness pair of every listed finding of this property is judged on every run
+            w = e.get('witness_pair')
+            if w and e.get('property') == prop:
+                lp = tuple(w['lowprec']) if w.get('lowprec') else None
+                A, B = pairs.run2(w['blt_a'], dict(w['options']), lp, w['blt_b'], dict(w['options']), lp)
+                items.append((pairs.mkpair(w['rel'], A, B, nmap=w['map']), (w['blt_a'], w['blt_b'], w['options'], lp)))
+        pair_stage(R, prop, items, known)
         R.cov['rule'] = 'pairs (profile, profile with candidate ids permuted) -> FinalDiff; (profile with withdrawn, profile with them deleted) -> SameByName; all rules'
     elif prop == 'C13':
         num_model_stage(R, prop, tier)
